@@ -254,7 +254,7 @@ func c12Fault(ctx *core.Ctx, bin string, f Fault, outcomes *sync.Map) {
 		return
 	case r.crashed:
 		note("crash")
-		ctx.Report(cls+"|not rejected: the compiler crashes instead ("+crashClass(r.stderr+r.stdout)+")", fmt.Sprintf("%s\n%s\n--- stderr\n%s", f.Name, core.Trunc(f.Text, 600), core.Trunc(r.stderr, 600)), rep)
+		ctx.Report(cls+"|not rejected: the compiler crashes instead ("+noFrame(crashClass(r.stderr+r.stdout))+")", fmt.Sprintf("%s\n%s\n--- stderr\n%s", f.Name, core.Trunc(f.Text, 600), core.Trunc(r.stderr, 600)), rep)
 		return
 	case r.exit == 0:
 		note("accepted")
@@ -328,7 +328,7 @@ func c12Accept(ctx *core.Ctx, bin, name, text, kind string) {
 	rep := map[string]any{"name": name, "text": text}
 	switch {
 	case r.crashed:
-		ctx.Report("well-formed program crashes the compiler|"+kind+"|"+crashClass(r.stderr+r.stdout), fmt.Sprintf("%s\n%s\n%s", name, core.Trunc(text, 600), core.Trunc(r.stderr, 500)), rep)
+		ctx.Report("well-formed program crashes the compiler|"+kind+"|"+noFrame(crashClass(r.stderr+r.stdout)), fmt.Sprintf("%s: %s\n%s\n%s", name, crashClass(r.stderr+r.stdout), core.Trunc(text, 600), core.Trunc(r.stderr, 500)), rep)
 	case r.exit != 0 || len(r.diags) > 0:
 		msg := ""
 		if len(r.diags) > 0 {
